@@ -144,6 +144,22 @@ func Run(g *Group, rng *rand.Rand, ntraces, steps int, tr0 int, emit func(Event)
 						g.Combined(1, 0, m, n)
 						form[1] = red(&e, new(big.Int).Add(m, new(big.Int).Mul(n, form[0])))
 						emit(e)
+						// observe the result at once: is it the identity, and does it equal the same multiple obtained from the fixed-base path
+						if g.IsID != nil {
+							o := ev("id")
+							o.A, o.Eq = 1, g.IsID(1)
+							emit(o)
+						}
+						if g.NRegs >= 3 {
+							b := ev("base")
+							b.Dst, b.K = 2, vlib.Digits(form[1])
+							g.Base(2, form[1])
+							form[2] = red(&b, form[1])
+							emit(b)
+							o := ev("eq")
+							o.A, o.B, o.Eq = 1, 2, g.Eq(1, 2)
+							emit(o)
+						}
 					}
 				}
 			}
